@@ -164,10 +164,9 @@ def run(analysis: Analysis, tier: str) -> RuleResult:
     before = len(res.obs)
     c14.flag_writers(analysis, res)
     for summ in common.pmap(analysis, c12.save_worker, [(e, (analysis.versions[-1], "serial", "sync")) for e in persist.EXTS]):
-        for r in summ["rows"]:
-            if r["kind"] == "raise":
-                clears = [e for e in r["raw"] if e["name"] == "store need_save" and e["val"] is False]
-                res.add("C15-R3", f"save_sensors[{summ['ext']}] / a failing save leaves the state marked unsaved", not clears, "mysensors/persistence.py", "need_save untouched on the failing path" if not clears else "the dirty flag is cleared although the save failed: the next attempts skip the save", r["witness"] if clears else None)
+        # every clause of the atomic replace (C12-R1..R3): a failing attempt keeps the state marked unsaved
+        # and leaves a loadable previous copy, the next attempt writes the then-current state
+        c12.analyse_save_rows(res, summ)
     for o in res.obs[before:]:
         o.rule = "C15-R3"
     res.reindex()
